@@ -27,6 +27,16 @@ def _attr(ex, obj, name, fr):
 
 def _call(ex, f, args, kwargs, fr):
     ex.st.events.append(("xr_call", f.info.get("label"), list(args), dict(kwargs), f))
+    if str(f.info.get("label", "")).endswith("map_over_datasets"):
+        # the library applies the user's function to every dataset of the tree: run it once on a generic dataset so
+        # that what it passes on (coordinates, dimension values) is recorded
+        for a in list(args) + list(kwargs.values()):
+            if isinstance(a, VFunc):
+                ds = VOpaque("xr", ex.st.fresh_int("xr"), {"label": "dataset"})
+                try:
+                    ex.call(a, [ds], {}, fr)
+                except PyExc:
+                    raise
     return VOpaque("xr", ex.st.fresh_int("xr"), {"label": f"{f.info.get('label')}()", "args": list(args), "kwargs": dict(kwargs), "fn": f})
 
 
@@ -72,6 +82,7 @@ def install(cfg: Cfg, prefixes=("xarray.", "dask.", "tqdm.", "pandas.")):
     cfg.lib_overrides[("contains", "xr")] = _contains
     cfg.lib_overrides[("truth", "xr")] = _truth
     cfg.lib_overrides[("compare", "xr")] = _compare
+    cfg.lib_overrides[("list_of", "xr")] = lambda ex, v, fr: VOpaque("xr", ex.st.fresh_int("xr"), {"label": f"list({v.info.get('label')})", "of": v})
     cfg.lib_overrides[("len", "xr")] = lambda ex, v, fr: VInt(ex.st.fresh_int("xr_len"))
     cfg.lib_overrides[("deepcopy", "xr")] = lambda ex, v, dc, fr: VOpaque("xr", ex.st.fresh_int("xr"), dict(v.info, copied_from=v))
     return cfg
